@@ -433,8 +433,96 @@ fn classify(a: &Outcome, b: &Outcome) -> &'static str {
 
 /// Programs of hundreds and thousands of lines: far jumps forward and backward, a jump past the
 /// end, errors on the first and on the last line (the line number handed to on_error).
+/// A script given as a file is the script given as text: for files whose size, and the byte offset of a
+/// multi-byte character in them, lie around every power of two and power of ten (where a reader's
+/// buffer has its edges), run_script_file ends with the variables run_script of the same text ends with.
+fn file_offsets(w: &mut Worker) {
+    let dir = w.scratch.join("c03-offsets");
+    let _ = std::fs::create_dir_all(&dir);
+    let file = dir.join("script.ds");
+    let caps = w.tier.pick(65536u64, 1 << 20);
+    let mut boundaries: Vec<u64> = vec![];
+    let mut p = 512u64;
+    while p <= caps {
+        boundaries.push(p);
+        p *= 2;
+    }
+    boundaries.extend([1000, 10_000, 100_000].iter().filter(|b| **b <= caps));
+    for b in boundaries {
+        for delta in -4i64..=1 {
+            for ch in ["é", "日", "😀"] {
+                if !w.take() {
+                    continue;
+                }
+                // comment padding up to the wanted offset, then a statement whose multi-byte character
+                // starts there, a jump by a label that holds it, and a marker at the end
+                let at = (b as i64 + delta) as usize;
+                let head = format!("v = set {}", "");
+                let _ = head;
+                let stmt_prefix = "v = set \"x";
+                let mut text = String::from("a = set first\n");
+                let need = at.saturating_sub(text.len() + stmt_prefix.len() + 1);
+                // comment lines of at most 100 characters
+                let mut left = need;
+                while left > 0 {
+                    let take = left.min(100);
+                    if take == 1 {
+                        text.push('\n');
+                    } else {
+                        text.push('#');
+                        text.push_str(&"-".repeat(take - 2));
+                        text.push('\n');
+                    }
+                    left -= take;
+                }
+                text.push_str(stmt_prefix);
+                let offset = text.len();
+                text.push_str(ch);
+                text.push_str(&format!("y\"\ngoto :l{}\nskipped = set yes\n:l{} after = set reached\n", ch, ch));
+                let cj = json!({"kind": "file-offset", "boundary": b, "offset": offset, "char": ch, "size": text.len()});
+                w.begin(|| cj.clone());
+                w.add_transitions(2);
+                if let Err(e) = std::fs::write(&file, &text) {
+                    w.fail("harness:io", &e.to_string(), cj);
+                    continue;
+                }
+                let run = |from_file: bool| -> Result<std::collections::BTreeMap<String, String>, String> {
+                    let (env, _o, _e, _h) = quiet_env();
+                    let r = guarded(|| {
+                        if from_file {
+                            duckscript::runner::run_script_file(&file.to_string_lossy(), sdk_context(), Some(env))
+                        } else {
+                            duckscript::runner::run_script(&text, sdk_context(), Some(env))
+                        }
+                    });
+                    match r {
+                        Err(p) => Err(format!("panic: {}", p)),
+                        Ok(Err(e)) => Err(format!("failed: {}", e)),
+                        Ok(Ok(c)) => Ok(c.variables.into_iter().collect()),
+                    }
+                };
+                let (t, f) = (run(false), run(true));
+                let expect_v = format!("x{}y", ch);
+                match (&t, &f) {
+                    (Ok(tv), _) if tv.get("v") != Some(&expect_v) || tv.get("after").map(|s| s.as_str()) != Some("reached") || tv.contains_key("skipped") => {
+                        w.fail("harness:file-offset", &format!("the text itself ends with {:?}", tv), cj)
+                    }
+                    (Ok(tv), Ok(fv)) if tv == fv => w.pass(true, hash64(&("file-offset", ch))),
+                    _ => w.fail(
+                        "file-offset:file-and-text-differ",
+                        &format!("a script of {} bytes with {:?} at byte {} (boundary {}): as text {:?}, as a file {:?}", text.len(), ch, offset, b, t.as_ref().map(|v| v.get("after")), f.as_ref().map(|v| v.get("after")).map_err(|e| e.chars().take(200).collect::<String>())),
+                        json!({"kind": "file-offset", "boundary": b, "offset": offset, "char": ch, "size": text.len(), "script": text}),
+                    ),
+                }
+            }
+        }
+    }
+    let _ = std::fs::remove_dir_all(&dir);
+}
+
 fn scale(w: &mut Worker) {
-    let sizes: Vec<usize> = w.tier.pick(vec![300, 3000], vec![300, 3000, 100_000]);
+    file_offsets(w);
+    let sizes: Vec<usize> = with_thresholds_usize(w.tier.pick(vec![300, 3000], vec![300, 3000, 100_000]), w.tier.pick(4096, 65536));
     let rig = Rig::new(OnError::Continue);
     let k = |label: Option<&'static str>, output: bool| Line { label, output, cmd: Cmd::K };
     let nope = Line { label: None, output: false, cmd: Cmd::Nope };
@@ -627,6 +715,23 @@ fn parse_prog(text: &str) -> Vec<Line> {
 }
 
 pub fn replay(case: &Value) -> Result<String, String> {
+    if case["kind"].as_str() == Some("file-offset") {
+        let text = case["script"].as_str().ok_or("no script")?;
+        let dir = scratch_root().join(format!("replay-c03-{}", std::process::id()));
+        let _ = std::fs::create_dir_all(&dir);
+        let file = dir.join("script.ds");
+        std::fs::write(&file, text).map_err(|e| e.to_string())?;
+        let show = |r: Result<duckscript::types::runtime::Context, duckscript::types::error::ScriptError>| match r {
+            Ok(c) => format!("ends with after={:?} v={:?}", c.variables.get("after"), c.variables.get("v")),
+            Err(e) => format!("fails: {}", e),
+        };
+        let (e1, _o, _e, _h) = quiet_env();
+        let (e2, _o2, _e2, _h2) = quiet_env();
+        let a = show(duckscript::runner::run_script(text, sdk_context(), Some(e1)));
+        let b = show(duckscript::runner::run_script_file(&file.to_string_lossy(), sdk_context(), Some(e2))).replace(&dir.to_string_lossy().to_string(), "<dir>");
+        let _ = std::fs::remove_dir_all(&dir);
+        return Ok(format!("as text: {}\nas a file: {}", a, b));
+    }
     let text = case["program"].as_str().ok_or("no program")?.to_string();
     let cfg = match case["on_error"].as_str().unwrap_or("Absent") {
         "Continue" => OnError::Continue,
@@ -667,7 +772,7 @@ pub fn crash_sig(_case: &Value, kind: &str) -> String {
     kind.to_string()
 }
 
-pub const RULE: &str = "programs: every sequence of 1..n lines over 15 line forms (a pre-processor line `!print -`, `x =` and `:a x =`, and label none/:a/:b x {no command, `k p ${x}`, `x = k p ${x}`, unknown command `nope p`}), duplicates of labels included; configurations: on_error command absent / continuing / exiting / crashing, script as text and (small programs) as file; answers: at every invocation of the scripted command k one of 18 results (Continue with/without value, Continue after removing the registered on_error command / registering one where there is none, Continue after registering / removing the command `nope` that other lines use, GoTo label :a/:b/undefined, GoTo line 0/n/n+5, Error with plain message / message containing ${x}, Crash, Exit none/0/3/-1/abc), explored with a bounded number of deviations from the default answer within a horizon of choice points. Every execution of the real runner is compared with the abstract machine run on the same answers: sequence of invocations with bound arguments and the `line` each command sees, on_error arguments (message, 1-based line, source) and the value the handler finds in the output variable when it runs, final variables, success or failure with source line and file. Scale cases: programs of 300/3000 (thorough 100000) lines with a far forward jump by label over unknown commands, a jump past the end, far backward jumps by label and by line, errors on the first and last line. evaluations = programs x configurations; transitions = executions; states = distinct (calls, outcome, deviations) classes. on_error configurations: absent, continuing, exit (no value, 0, 3), crash, goto and error results of the handler (only exit and crash fail the run)";
+pub const RULE: &str = "programs: every sequence of 1..n lines over 15 line forms (a pre-processor line `!print -`, `x =` and `:a x =`, and label none/:a/:b x {no command, `k p ${x}`, `x = k p ${x}`, unknown command `nope p`}), duplicates of labels included; configurations: on_error command absent / continuing / exiting / crashing, script as text and (small programs) as file; answers: at every invocation of the scripted command k one of 18 results (Continue with/without value, Continue after removing the registered on_error command / registering one where there is none, Continue after registering / removing the command `nope` that other lines use, GoTo label :a/:b/undefined, GoTo line 0/n/n+5, Error with plain message / message containing ${x}, Crash, Exit none/0/3/-1/abc), explored with a bounded number of deviations from the default answer within a horizon of choice points. Every execution of the real runner is compared with the abstract machine run on the same answers: sequence of invocations with bound arguments and the `line` each command sees, on_error arguments (message, 1-based line, source) and the value the handler finds in the output variable when it runs, final variables, success or failure with source line and file. Scale cases: programs of 300/3000 (thorough 100000) lines with a far forward jump by label over unknown commands, a jump past the end, far backward jumps by label and by line, errors on the first and last line. evaluations = programs x configurations; transitions = executions; states = distinct (calls, outcome, deviations) classes. on_error configurations: absent, continuing, exit (no value, 0, 3), crash, goto and error results of the handler (only exit and crash fail the run). File offsets: scripts as files with a 2-, 3- or 4-byte character starting 5..0 bytes in front of every power of two from 512 to 65536 (thorough 2^20) and of 1000 / 10000 / 100000: run_script_file ends with the variables run_script of the same text ends with";
 pub const ASSUMPTIONS: &[&str] = &["a line with an output variable and no command (`x =`) is a continue result without a value: that is what the public run_instruction returns for it, so the variable is deleted", "error messages are compared only through the on_error arguments; failures are compared by line and source file"];
 pub const EXHAUSTIVE: bool = true;
 pub const WALL_CAP_S: (u64, u64) = (55, 1500);
